@@ -737,6 +737,97 @@ func volumeProp(c VolumeCase, r *pbt.R) error {
 	return nil
 }
 
+// ---------------------------------------------------------------------------
+// a cache whose value type is an interface: the empty STRING is rejected whatever the static value type is
+
+// AnyCase: Ops are (kind, value code): kind 0 Set, 1 Update, 2 MapToCache of {key, "m"}; value codes: 0 "" (rejected),
+// 1 "x", 2 the integer 0, 3 nil, 4 the empty []byte (not a string: accepted).
+type AnyCase struct {
+	Ops [][2]int `json:"ops"`
+}
+
+func anyProp(c AnyCase, r *pbt.R) error {
+	if len(c.Ops) > 64 {
+		return nil
+	}
+	vals := []any{"", "x", 0, nil, []byte{}}
+	names := []string{`""`, `"x"`, "0", "nil", "[]byte{}"}
+	ch := cache.New[string, any](cache.NoExpiration, 0)
+	stored := map[string]int{} // key -> value code
+	rejected := false
+	for i, op := range c.Ops {
+		kind, vc := ((op[0]%3)+3)%3, ((op[1]%5)+5)%5
+		key := fmt.Sprintf("k%d", i%2)
+		ctx := fmt.Sprintf("cache.New[string, any], ops %v (kind 0 Set / 1 Update / 2 MapToCache; values %v), at op %d", c.Ops[:i+1], names, i)
+		var err error
+		switch kind {
+		case 0:
+			err = ch.Set(key, vals[vc], cache.NoExpiration)
+			_, exists := stored[key]
+			switch {
+			case vc == 0:
+				rejected = true
+				if err == nil {
+					return fmt.Errorf("%s: Set accepted the empty string without an error", ctx)
+				}
+			case exists:
+				if err == nil {
+					return fmt.Errorf("%s: Set succeeded although the key has a live entry", ctx)
+				}
+			default:
+				if err != nil {
+					return fmt.Errorf("%s: Set(%s) failed: %v", ctx, names[vc], err)
+				}
+				stored[key] = vc
+			}
+		case 1:
+			err = ch.Update(key, vals[vc], cache.NoExpiration)
+			if vc == 0 {
+				rejected = true
+				if err == nil {
+					return fmt.Errorf("%s: Update accepted the empty string without an error", ctx)
+				}
+			} else {
+				if err != nil {
+					return fmt.Errorf("%s: Update(%s) failed: %v", ctx, names[vc], err)
+				}
+				stored[key] = vc
+			}
+		default:
+			_, exists := stored[key]
+			_, mexists := stored["m"]
+			err = ch.MapToCache(map[string]any{key: vals[vc], "m": 1}, cache.NoExpiration)
+			wantErr := vc == 0 || exists || mexists
+			if wantErr != (err != nil) {
+				return fmt.Errorf("%s: MapToCache({%s: %s, m: 1}) returned %v, want an error: %v (rejected value or existing key)", ctx, key, names[vc], err, wantErr)
+			}
+			if vc == 0 {
+				rejected = true
+			}
+			if vc != 0 && !exists {
+				stored[key] = vc
+			}
+			if !mexists {
+				stored["m"] = -1
+			}
+		}
+		if n := ch.Count(); n != len(stored) {
+			return fmt.Errorf("%s: Count() = %d, want %d (a rejected value stores nothing and removes nothing)", ctx, n, len(stored))
+		}
+		for k, code := range stored {
+			it, gerr := ch.Get(k)
+			if gerr != nil || it == nil {
+				return fmt.Errorf("%s: Get(%s) failed: %v", ctx, k, gerr)
+			}
+			if code >= 0 && code != 4 && it.Val() != vals[code] {
+				return fmt.Errorf("%s: Get(%s) = %v, want %s", ctx, k, it.Val(), names[code])
+			}
+		}
+	}
+	r.NonTrivialIf(rejected, "an empty string was offered")
+	return nil
+}
+
 func TestProp(t *testing.T) {
 	pbt.Run(t, "C08",
 		&pbt.Check[Case]{
@@ -768,6 +859,22 @@ func TestProp(t *testing.T) {
 			},
 			Prop: volumeProp, OutOfEnum: func(VolumeCase, bool) bool { return true },
 			RapidQuick: 2, RapidThorough: 6, Bubble: true,
+		},
+		&pbt.Check[AnyCase]{
+			Name: "anyvalues",
+			Rule: "cache.New[string, any]: Set / Update / MapToCache with the values \"\" (the rejected empty string, here behind an interface), \"x\", 0, nil and an empty []byte on two keys: the empty string is reported as an error and stores nothing, everything else is stored; Count and Get of every stored key after every operation. " +
+				"Enumerated: every sequence of up to 3 (thorough 4) operations over 3 kinds x 5 values; random: up to 12. Non-trivial = an empty string was offered.",
+			Enum: func(s pbt.Src, thorough bool) AnyCase {
+				n := 3
+				if thorough {
+					n = 4
+				}
+				return AnyCase{Ops: pbt.Seq(s, 1, n, func(s pbt.Src) [2]int { return [2]int{s.Intn(3), s.Intn(5)} })}
+			},
+			Gen:        func(s pbt.Src, _ bool) AnyCase { return AnyCase{Ops: pbt.Seq(s, 1, 12, func(s pbt.Src) [2]int { return [2]int{s.Intn(3), s.Intn(5)} })} },
+			Prop:       anyProp,
+			OutOfEnum:  func(c AnyCase, th bool) bool { return len(c.Ops) > 4 },
+			RapidQuick: 100, RapidThorough: 2000,
 		},
 	)
 }
